@@ -72,7 +72,7 @@ def make_wifi_data(ssid, password=None, security=None, hidden=False):
     escape = _escape_mecard
     data = 'WIFI:'
     if security:
-        data += f'T:{security.upper() if security != "nopass" else security};'
+        data += f'T:{escape(security.upper() if security != "nopass" else security)};'
     data += f'S:{escape(ssid)};'
     if password is not None:
         data += f'P:{escape(password)};'
